@@ -406,12 +406,18 @@ func c17Unlink(t *T) {
 				unlinked = true
 			}
 		} else {
-			o := genHandleOp(t, len(w.hs), 10, i+1, []string{"Write", "WriteAt", "Truncate", "Chmod", "Seek"}, []int{5, 2, 2, 1, 1})
+			o := genHandleOp(t, len(w.hs), 10, i+1, []string{"Write", "WriteAt", "Truncate", "Chmod", "Seek", "Close"}, []int{5, 2, 2, 1, 1, 1})
 			h := w.hs[o.H]
+			if h.closed {
+				continue
+			}
 			callHandle(h.ref, o)
+			if o.Kind == "Close" {
+				h.closed = true // (closing is an operation on the handle like the others: it must not bring a name back either)
+			}
 			var got hResult
 			var plan *faultPlan
-			if unlinked && faultsLeft > 0 && c.Chance(1, 2) {
+			if (unlinked || c.Chance(1, 3)) && faultsLeft > 0 && c.Chance(1, 2) {
 				faultsLeft--
 				plan = &faultPlan{t: t, at: c.Draw(2), kind: []string{"Get", "", "Set"}[c.Weighted(3, 1, 1)], armed: true}
 				store.plan = plan
